@@ -57,6 +57,15 @@ CHECKS = {
         note=COMMON_NOTE + "serde-derive and serde_json semantics are modelled; f64 text conversion trusted. Known finding: Option<Value> = Some(null) reads back as None.",
         technique="Coq proof (JSON reader/writer round trip by induction; schema interpreter lemmas at regenerated schemas) + differential execution",
         design="5/C17"),
+    "C07": dict(
+        text="Theorems over a transition system of the client (any number of call objects, any reply stream, every interleaving of the atomic send/recv steps): "
+             "at most one call owns the stream, idle iff none does, the owner wrote the latest non-oneway request and is reading the reply group that answers it; "
+             "busy / repeated sends fail and write nothing; the final reply frees the connection; success iff no error member, error kind by name (regenerated table, "
+             "matches the server's names). Tie: scripted fake server (all op sequences to length 3/4, random longer), 2..8 real threads against an echo server. "
+             "PARTIAL: real thread schedules are sampled; the atomicity of send() (write lock) is the modelled part.",
+        note=COMMON_NOTE + "Typed reply structs: Ok => no error member and error member => mapped Err are checked; the iff is checked with serde_json::Value replies.",
+        technique="Coq proof (inductive invariant over all interleavings of a client LTS) + differential execution + threaded trace oracles",
+        design="5/C07"),
 }
 
 ALL = ["C%02d" % i for i in range(1, 21)]
